@@ -28,7 +28,8 @@ LEVEL_NOTE = ("The theorems are about Model/FileDisk.v, a hand-written model of 
               "pairs (evidence: crash_point_coverage). Non-atomic calls additionally crash INSIDE: content writes (any bytes / every truncation "
               "<= 512), RemoveAll (subsets), MkdirAll (outer part of the chain). NOT crash points: the read-only calls (os.Stat, os.Open, "
               "Readdirnames) and the four os.Remove(raw) clean-ups of AddMessage that run only after an I/O error — I/O errors (disk full, EACCES) "
-              "are not modelled; concurrency is C09's.")
+              "are not modelled; concurrency is C09's. The ordered map of crash_atomic_* / crash_reopen_history is StoreSpec's (C10: "
+              "filedisk_refines_storespec, crash_is_storespec_state: every crash state represents a StoreSpec state).")
 TECHNIQUE = "machine-checked proof in Coq + model/code correspondence check"
 DESIGN_REF = "DESIGN.md §4 C11"
 RULE = ("plan: fixed scenarios (add to empty / at cap 1,2,3 / seen / remove one of two / remove last / purge, with sibling mailboxes "
